@@ -556,12 +556,20 @@ type specField struct {
 func compareSeq(p layPath, spec []specField) string {
 	rs := p.reads()
 	var got []string
+	// a local scratch buffer is named after the variable only for the report: which local holds the octets is the
+	// code's business, so both sides compare as "buf"
+	anon := func(n string) string {
+		if strings.HasPrefix(n, "buf:") {
+			return "buf"
+		}
+		return n
+	}
 	for _, e := range rs {
-		got = append(got, fmt.Sprintf("%s/%d", e.Dest, e.Width))
+		got = append(got, fmt.Sprintf("%s/%d", anon(e.Dest), e.Width))
 	}
 	var want []string
 	for _, s := range spec {
-		want = append(want, fmt.Sprintf("%s/%d", s.Name, s.Width))
+		want = append(want, fmt.Sprintf("%s/%d", anon(s.Name), s.Width))
 	}
 	if strings.Join(got, " ") == strings.Join(want, " ") {
 		return ""
